@@ -219,8 +219,12 @@ func checkC12(c *Ctx) {
 		if !ri.maps[a.Field] || a.Init || a.Local || a.Kind != "map-update" {
 			continue
 		}
-		mu := a.Instr.(*ssa.MapUpdate)
-		v := ir.Unwrap(mu.Value)
+		construct0 := a.Field + " store in " + fname(a.Fn)
+		if a.MapVal == nil {
+			c.R.Violate("R-atomic-replace", construct0, c.Pos(a.Pos), sprintf("%s stores into %s through a helper a value that cannot be traced to the caller: whether it is a freshly allocated record is undecided", fname(a.Fn), a.Field))
+			continue
+		}
+		v := ir.Unwrap(a.MapVal)
 		_, isSig := v.Type().Underlying().(*types.Signature)
 		fresh := freshRecord(c, a.Fn, v, 0)
 		construct := a.Field + " store in " + fname(a.Fn)
@@ -364,6 +368,30 @@ func checkC12Order(c *Ctx, accs []Access, ri *registryInfo) {
 						}
 						c.R.Violate("R-order", resOrder+" append shape in "+fname(a.Fn), c.Pos(a.Pos),
 							"registration does not append the new key at the end of the order slice")
+					} else if sc := ir.StaticCallee(call); sc != nil && c.P.IsLib(sc) {
+						// a helper handed the order slice that returns it with the key appended at the end
+						for i, arg := range call.Call.Args {
+							u, ok := arg.(*ssa.UnOp)
+							if !ok || i >= len(sc.Params) {
+								continue
+							}
+							fa, ok := u.X.(*ssa.FieldAddr)
+							if !ok {
+								continue
+							}
+							if key, _, _, _ := ir.FullField(fa); key != resOrder {
+								continue
+							}
+							ir.EachInstr(sc, func(_ *ssa.BasicBlock, _ int, in ssa.Instruction) {
+								if ic, ok := in.(*ssa.Call); ok {
+									if b, ok := ic.Call.Value.(*ssa.Builtin); ok && b.Name() == "append" && len(ic.Call.Args) == 2 && ic.Call.Args[0] == ssa.Value(sc.Params[i]) {
+										if _, isSlice := ic.Call.Args[1].(*ssa.Slice); isSlice {
+											appended = true
+										}
+									}
+								}
+							})
+						}
 					}
 				}
 			}
@@ -507,6 +535,111 @@ func c12NoLockAcrossHandler(c *Ctx, ri *registryInfo) {
 // c12LookupChecked (R-lookup-checked): an entry looked up in a registry may have been unregistered a moment earlier,
 // also when an earlier lookup of the same request found it. Every dereference of a looked-up entry (pointer-valued
 // registry map) is therefore reachable only through the lookup's own ok result, or a nil test of the entry.
+
+// mapLookup describes a lookup in a map held in a struct member: `x.m[k]` written in place, or made through a lookup
+// accessor — a library method whose every return hands back one such lookup of a member of its receiver keyed by one
+// of its parameters (`func (m *T) lookupLocked(k string) (*E, bool) { e, ok := m.tbl[k]; return e, ok }`).
+type mapLookup struct {
+	field   string     // "Type.member"
+	typ     types.Type // the member's type
+	key     ssa.Value  // in the function that contains the lookup (or the accessor call)
+	commaOk bool
+}
+
+func mapLookupOf(c *Ctx, v ssa.Value) (mapLookup, bool) {
+	direct := func(lk *ssa.Lookup) (mapLookup, bool) {
+		ld, ok := lk.X.(*ssa.UnOp)
+		if !ok {
+			return mapLookup{}, false
+		}
+		fa, ok := ld.X.(*ssa.FieldAddr)
+		if !ok {
+			return mapLookup{}, false
+		}
+		key, _, typ, _ := ir.FullField(fa)
+		if key == "" {
+			return mapLookup{}, false
+		}
+		return mapLookup{key, typ, lk.Index, lk.CommaOk}, true
+	}
+	switch x := v.(type) {
+	case *ssa.Lookup:
+		return direct(x)
+	case *ssa.Call:
+		sc := ir.StaticCallee(x)
+		if sc == nil || !c.P.IsLib(sc) || sc.Signature.Recv() == nil || len(sc.Blocks) == 0 || len(sc.Blocks) > 2 {
+			return mapLookup{}, false
+		}
+		var the *ssa.Lookup
+		n := 0
+		ir.EachInstr(sc, func(_ *ssa.BasicBlock, _ int, in ssa.Instruction) {
+			switch y := in.(type) {
+			case *ssa.Lookup:
+				the = y
+				n++
+			case *ssa.Call, *ssa.Store, *ssa.MapUpdate, *ssa.Go, *ssa.Defer, *ssa.Send:
+				n += 100 // anything but a pure lookup disqualifies
+			}
+		})
+		if n != 1 {
+			return mapLookup{}, false
+		}
+		ml, ok := direct(the)
+		if !ok {
+			return mapLookup{}, false
+		}
+		kp, ok := the.Index.(*ssa.Parameter)
+		if !ok {
+			return mapLookup{}, false
+		}
+		// every result is the lookup or one of its two halves
+		fine := true
+		ir.EachInstr(sc, func(blk *ssa.BasicBlock, _ int, in ssa.Instruction) {
+			ret, ok := in.(*ssa.Return)
+			if !ok || blk == sc.Recover {
+				return
+			}
+			for _, r := range ret.Results {
+				switch z := r.(type) {
+				case *ssa.Extract:
+					if z.Tuple != ssa.Value(the) {
+						fine = false
+					}
+				case *ssa.Lookup:
+					if z != the {
+						fine = false
+					}
+				default:
+					fine = false
+				}
+			}
+		})
+		if !fine {
+			return mapLookup{}, false
+		}
+		for i, q := range sc.Params {
+			if q == kp && i < len(x.Call.Args) {
+				ml.key = x.Call.Args[i]
+				ml.commaOk = sc.Signature.Results().Len() == 2
+				return ml, true
+			}
+		}
+	}
+	return mapLookup{}, false
+}
+
+// mapLookupAccessor: fn itself is a lookup accessor (see mapLookupOf).
+func mapLookupAccessor(c *Ctx, fn *ssa.Function) (string, bool) {
+	for _, e := range ir.Callers(c.G, fn) {
+		if call, ok := e.Site.(*ssa.Call); ok && ir.StaticCallee(call) == fn {
+			if ml, ok := mapLookupOf(c, call); ok {
+				return ml.field, true
+			}
+		}
+	}
+	return "", false
+}
+
 func c12LookupChecked(c *Ctx, ri *registryInfo) {
 	n := 0
 	for _, fn := range c.P.LibFns {
@@ -515,21 +648,23 @@ func c12LookupChecked(c *Ctx, ri *registryInfo) {
 		}
 		cnt := map[string]int{}
 		ir.EachInstr(fn, func(_ *ssa.BasicBlock, _ int, in ssa.Instruction) {
-			lk, ok := in.(*ssa.Lookup)
+			lk, ok := in.(ssa.Value)
 			if !ok {
 				return
 			}
-			ld, ok := lk.X.(*ssa.UnOp)
-			if !ok {
+			ml, ok := mapLookupOf(c, lk)
+			if !ok || lk.Referrers() == nil {
 				return
 			}
-			fa, ok := ld.X.(*ssa.FieldAddr)
-			if !ok {
-				return
-			}
-			key, _, typ, _ := ir.FullField(fa)
+			key, typ := ml.field, ml.typ
 			if !ri.maps[key] {
 				return
+			}
+			if _, isCall := in.(*ssa.Call); !isCall && fn.Signature.Recv() != nil {
+				// (the lookup inside an accessor is judged where the accessor is called)
+				if _, isAcc := mapLookupAccessor(c, fn); isAcc {
+					return
+				}
 			}
 			m, ok := typ.Underlying().(*types.Map)
 			if !ok {
@@ -539,7 +674,7 @@ func c12LookupChecked(c *Ctx, ri *registryInfo) {
 				return
 			}
 			var val, okv ssa.Value = lk, nil
-			if lk.CommaOk {
+			if ml.commaOk {
 				val = nil
 				for _, r := range *lk.Referrers() {
 					if ex, ok := r.(*ssa.Extract); ok {
@@ -981,6 +1116,31 @@ func c12OrderPaired(c *Ctx, ri *registryInfo, accs []Access) {
 		key, _, _, _ := ir.FullField(fa)
 		return key
 	}
+	// the key appended by `append(order, k)`: the call's second operand is a one-element slice literal [k]
+	appendedKey := func(call *ssa.Call) ssa.Value {
+		if b, ok := call.Call.Value.(*ssa.Builtin); !ok || b.Name() != "append" || len(call.Call.Args) != 2 {
+			return nil
+		}
+		sl, ok := call.Call.Args[1].(*ssa.Slice)
+		if !ok {
+			return nil
+		}
+		al, ok := sl.X.(*ssa.Alloc)
+		if !ok || al.Referrers() == nil {
+			return nil
+		}
+		var key ssa.Value
+		for _, r := range *al.Referrers() {
+			if ia, ok := r.(*ssa.IndexAddr); ok && ia.Referrers() != nil {
+				for _, rr := range *ia.Referrers() {
+					if s2, ok := rr.(*ssa.Store); ok && s2.Addr == ia {
+						key = s2.Val
+					}
+				}
+			}
+		}
+		return key
+	}
 	n := 0
 	for _, a := range accs {
 		if !ri.fields[a.Field] || ri.maps[a.Field] || a.Kind != "store" || a.Init || a.Local {
@@ -994,36 +1154,52 @@ func c12OrderPaired(c *Ctx, ri *registryInfo, accs []Access) {
 		if !ok {
 			continue
 		}
-		if b, ok := call.Call.Value.(*ssa.Builtin); !ok || b.Name() != "append" || len(call.Call.Args) != 2 {
+		// where the append happens (the registering function, or a helper it hands map and order slice to), the
+		// appended key there, and how a map operand there resolves to a registry member
+		host, at, key := a.Fn, call, appendedKey(call)
+		mapField := fieldKeyOf
+		if key != nil && fieldKeyOf(call.Call.Args[0]) != a.Field {
 			continue
-		}
-		if fieldKeyOf(call.Call.Args[0]) != a.Field {
-			continue
-		}
-		// the appended key: append(order, k) compiles to a one-element slice literal [k]
-		var key ssa.Value
-		if sl, ok := call.Call.Args[1].(*ssa.Slice); ok {
-			if al, ok := sl.X.(*ssa.Alloc); ok && al.Referrers() != nil {
-				for _, r := range *al.Referrers() {
-					if ia, ok := r.(*ssa.IndexAddr); ok && ia.Referrers() != nil {
-						for _, rr := range *ia.Referrers() {
-							if s2, ok := rr.(*ssa.Store); ok && s2.Addr == ia {
-								key = s2.Val
-							}
-						}
-					}
-				}
-			}
 		}
 		if key == nil {
-			continue // not the append of one key (removal by re-slicing, for instance)
+			sc := ir.StaticCallee(call)
+			if sc == nil || !c.P.IsLib(sc) {
+				continue
+			}
+			orderParam := -1
+			for i, arg := range call.Call.Args {
+				if fieldKeyOf(arg) == a.Field && i < len(sc.Params) {
+					orderParam = i
+				}
+			}
+			if orderParam < 0 {
+				continue
+			}
+			var inner *ssa.Call
+			ir.EachInstr(sc, func(_ *ssa.BasicBlock, _ int, in ssa.Instruction) {
+				if ic, ok := in.(*ssa.Call); ok && appendedKey(ic) != nil && ic.Call.Args[0] == ssa.Value(sc.Params[orderParam]) {
+					inner = ic
+				}
+			})
+			if inner == nil {
+				continue // the helper does not append a key (a removal helper)
+			}
+			host, at, key = sc, inner, appendedKey(inner)
+			site := call
+			mapField = func(v ssa.Value) string {
+				for i, q := range sc.Params {
+					if ssa.Value(q) == v && i < len(site.Call.Args) {
+						return fieldKeyOf(site.Call.Args[i])
+					}
+				}
+				return ""
+			}
 		}
-		fn := a.Fn
-		// the registry map this function stores the key into
+		// the registry map the host stores the key into
 		stored := ""
-		ir.EachInstr(fn, func(_ *ssa.BasicBlock, _ int, in ssa.Instruction) {
+		ir.EachInstr(host, func(_ *ssa.BasicBlock, _ int, in ssa.Instruction) {
 			if mu, ok := in.(*ssa.MapUpdate); ok && samePath(mu.Key, key, 0) {
-				if k := fieldKeyOf(mu.Map); ri.maps[k] {
+				if k := mapField(mu.Map); ri.maps[k] {
 					stored = k
 				}
 			}
@@ -1032,16 +1208,22 @@ func c12OrderPaired(c *Ctx, ri *registryInfo, accs []Access) {
 			continue
 		}
 		n++
-		construct := sprintf("append to %s in %s", a.Field, fname(fn))
+		construct := sprintf("append to %s in %s", a.Field, fname(a.Fn))
 		guardedBy, other := false, ""
-		for _, g := range flow.Guards(fn, st.Block()) {
+		for _, g := range flow.Guards(host, at.Block()) {
 			// `m[k] == nil` for a map of pointers whose entries are never nil says "not found" as well
 			if v, op, isNil := nilCompare(g.If.Cond); isNil {
 				if lk, ok := ir.Unwrap(v).(*ssa.Lookup); ok && !lk.CommaOk && (op == token.EQL) == g.Branch {
-					if fieldKeyOf(lk.X) == stored && samePath(lk.Index, key, 0) {
+					if mapField(lk.X) == stored && samePath(lk.Index, key, 0) {
 						guardedBy = true
 					} else {
-						other = fieldKeyOf(lk.X)
+						other = mapField(lk.X)
+					}
+				} else if ml, ok := mapLookupOf(c, ir.Unwrap(v)); ok && !ml.commaOk && (op == token.EQL) == g.Branch {
+					if ml.field == stored && samePath(ml.key, key, 0) {
+						guardedBy = true
+					} else {
+						other = ml.field
 					}
 				}
 				continue
@@ -1057,18 +1239,22 @@ func c12OrderPaired(c *Ctx, ri *registryInfo, accs []Access) {
 			if !ok || ex.Index != 1 {
 				continue
 			}
-			lk, ok := ex.Tuple.(*ssa.Lookup)
-			if !ok || !lk.CommaOk {
-				continue
-			}
 			notFound := (g.Branch && neg) || (!g.Branch && !neg)
 			if !notFound {
 				continue
 			}
-			if fieldKeyOf(lk.X) == stored && samePath(lk.Index, key, 0) {
+			field, lkey := "", ssa.Value(nil)
+			if lk, ok := ex.Tuple.(*ssa.Lookup); ok && lk.CommaOk {
+				field, lkey = mapField(lk.X), lk.Index
+			} else if ml, ok := mapLookupOf(c, ex.Tuple); ok && ml.commaOk {
+				field, lkey = ml.field, ml.key
+			} else {
+				continue
+			}
+			if field == stored && samePath(lkey, key, 0) {
 				guardedBy = true
 			} else {
-				other = fieldKeyOf(lk.X)
+				other = field
 			}
 		}
 		why := "the append is not conditional on the key being new"
@@ -1077,7 +1263,7 @@ func c12OrderPaired(c *Ctx, ri *registryInfo, accs []Access) {
 		}
 		c.R.Check(guardedBy, "R-order-paired", construct, c.Pos(st.Pos()),
 			sprintf("reached only when the key is not yet in %s", stored),
-			sprintf("%s appends the key to the order slice %s and stores it into %s, but %s: registering a key again lists it twice (or a new key is never listed), a listing that matches no state of the registry", fname(fn), a.Field, stored, why))
+			sprintf("%s appends the key to the order slice %s and stores it into %s, but %s: registering a key again lists it twice (or a new key is never listed), a listing that matches no state of the registry", fname(a.Fn), a.Field, stored, why))
 	}
 	c.R.Min("R-order-paired", 3)
 	if n == 0 {
